@@ -1,5 +1,5 @@
 """Rule registry: name -> callable(ctx, prop) -> RuleResult | [RuleResult]."""
-from . import trav, exh, backend, names, fields, compiler, memory
+from . import trav, exh, backend, names, fields, compiler, memory, purity
 
 
 def _trav_scoped(classes, name):
@@ -36,6 +36,9 @@ RULES = {
     "MEMPAIR": memory.rule_mempair,
     "FREEONCE": memory.rule_freeonce,
     "WINALIAS@live": memory.rule_winalias_live,
+    "MUT": purity.rule_mut,
+    "ATTRSTORE": purity.rule_attrstore,
+    "GLOBALSTATE": purity.rule_globalstate,
     "BACKPIPE": backend.rule_backpipe,
     "PAREMIT": backend.rule_paremit,
     "PARCHECK": backend.rule_parcheck,
